@@ -1,8 +1,8 @@
 // V-binom prelude (C14): the `binom` builtin (src/builtin/int.rs), verified as real text against V-int's
 // contracts.  Decided: the guards and the loop keep the divisor of the final `/` positive (the
 // precondition V-int's Div contract takes from its call sites), nothing panics, and the result is the
-// truncated quotient of the falling factorial by the factorial.  NOT decided: that this quotient is exact
-// (k! divides the falling factorial -- a number-theoretic fact outside this proof).
+// binomial coefficient C(a, b) (Pascal's rule): the falling factorial is C(a, b) * b! (proved lemma), so the
+// final division is exact.
 #![allow(unused_imports, dead_code, unused_variables, unused_mut)]
 use vstd::prelude::*;
 use vstd::std_specs::ops::*;
@@ -26,6 +26,36 @@ pub proof fn lemma_fact_pos(k: nat) ensures fact(k) >= 1 decreases k {
         lemma_fact_pos((k - 1) as nat);
         assert(fact((k - 1) as nat) * (k as int) >= 1) by(nonlinear_arith) requires fact((k - 1) as nat) >= 1, k >= 1;
     }
+}
+
+// @@INCLUDE binomc@@
+
+/// the falling factorial is the binomial coefficient times k!: the division `num / denum` of the builtin is exact
+pub proof fn lemma_falling_binom(n: nat, k: nat)
+    requires k <= n,
+    ensures falling(n as int, k) == binom_c(n, k) * fact(k),
+    decreases k,
+{
+    if k == 0 {
+        assert(binom_c(n, 0) == 1);
+        assert(falling(n as int, 0) == 1 && fact(0) == 1);
+    } else {
+        let j = (k - 1) as nat;
+        lemma_falling_binom(n, j);
+        lemma_binom_step(n, j);
+        let c0 = binom_c(n, j) as int; let c1 = binom_c(n, k) as int; let f0 = fact(j); let m = n as int - j as int;
+        assert(falling(n as int, k) == smul(falling(n as int, j), m));
+        assert(fact(k) == smul(f0, k as int));
+        assert(c0 * f0 * m == c1 * (f0 * k)) by(nonlinear_arith) requires c0 * m == c1 * k;
+    }
+}
+/// the truncated quotient of an exact non-negative division
+pub proof fn lemma_tdiv_exact(q: int, d: int)
+    requires q >= 0, d > 0,
+    ensures tdiv(q * d, d) == q,
+{
+    assert(q * d >= 0) by(nonlinear_arith) requires q >= 0, d > 0;
+    lemma_exact_div(q * d, q, d);
 }
 
 pub struct LazyBigint { pub v: Ghost<int> }
